@@ -264,8 +264,9 @@ func properties() map[string]*Property {
 		Jobs:   simJobs("ReadFloat64", "fp.ParseJSONFloatPrefix", "fp.readFloat", "fp.(*decimal).set", "countWhitespace"),
 		Labels: []string{"C04"},
 		Extra:  []string{"fp-tables", "fp-equiv", "fp-equiv-loops", "spec-lemmas"},
-		Subset: "(a) tables: every row equals its mathematical definition and the pinned reference; (b) kernels: eiselLemire64 and atof64exact equal strconv's for all arguments; (c) decimal slow path: floatBits, Shift, leftShift, rightShift, prefixIsLessThan, trim, shouldRoundUp, RoundedInteger are lock-step equivalent to strconv's (same results and same memory for equal arguments, loop by loop); (d) grammar and offset: ReadFloat64 / ParseJSONFloatPrefix / readFloat succeed (or report only a range error) exactly when the first token is an RFC 8259 number and return the offset just after the literal (simulation against the master transducer), and (*decimal).set accepts every literal readFloat accepted. NOT covered: that readFloat's (mantissa, exponent, truncated) and set's digit buffer denote the literal's decimal value, and that ParseJSONFloatPrefix combines the kernels as strconv.atof64 does (its structure is the same by inspection only)",
+		Subset: "(a) tables: every row equals its mathematical definition and the pinned reference; (b) kernels: eiselLemire64 and atof64exact equal strconv's for all arguments; (c) decimal slow path: floatBits, Shift, leftShift, rightShift, prefixIsLessThan, trim, shouldRoundUp, RoundedInteger are lock-step equivalent to strconv's (same results and same memory for equal arguments, loop by loop), and (*decimal).set is lock-step equivalent to strconv's on inputs without '_' and leading '+' (a precondition every call site proves); (d) grammar and offset: ReadFloat64 / ParseJSONFloatPrefix / readFloat succeed (or report only a range error) exactly when the first token is an RFC 8259 number and return the offset just after the literal (simulation against the master transducer), and set accepts every literal readFloat accepted; (e) value: readFloat's (mantissa, exp, neg, trunc) equal the number registers of the specification run (value of the first 19 mantissa digits, digit count, decimal point position, exponent fold); (f) glue: ParseJSONFloatPrefix returns atof64exact's result when the mantissa is exact and that succeeds, else eiselLemire64's when it succeeds and (if truncated) agrees with the result for mantissa+1, else the slow path's (set on the literal's bytes, floatBits), with an error exactly when the slow path reports overflow. NOT covered: that the number registers denote the literal's decimal value (positional notation, by definition) and that this decision procedure rounds correctly given correct kernels (the argument of the Eisel-Lemire paper / strconv.atof64, whose structure (f) mirrors)",
 		Assume: []string{
+			"purity: readFloat, atof64exact, eiselLemire64, (*decimal).set and (*decimal).floatBits are functions of their arguments and the memory reachable from them (they read only constant tables; no store to package-level memory: global store scan), so their results can be named by uninterpreted functions in the glue contract",
 			"A-strconv: Go 1.23.5 strconv.ParseFloat is correctly rounded (the property names it as the oracle); the reference is the verbatim copy of eisel_lemire.go / decimal.go / atof.go under /verif/ref/strconv (SHA256SUMS checked against GOROOT when present)",
 		},
 	}
